@@ -32,12 +32,14 @@ type Event struct {
 	Res    *T
 	Block  int
 	Epoch  int
+	Ver    int // heap version (consumption epoch) when the event happened
 }
 
 type Cond struct {
-	Atom *T
-	Val  bool
-	Pos  token.Pos
+	Atom  *T
+	Val   bool
+	Pos   token.Pos
+	Block int
 }
 
 type Path struct {
@@ -72,6 +74,7 @@ type pstate struct {
 	conds  []Cond
 	blocks []int
 	onPath map[int]bool
+	curBlk int
 }
 
 func (s *pstate) clone() *pstate {
@@ -86,6 +89,7 @@ func (s *pstate) clone() *pstate {
 		verAll: s.verAll,
 		ver:    make(map[string]int, len(s.ver)),
 		seq:    s.seq,
+		curBlk: s.curBlk,
 		onPath: make(map[int]bool, len(s.onPath)),
 	}
 	for k, v := range s.ver {
@@ -679,7 +683,7 @@ func (e *Explorer) runBlock(b *ssa.BasicBlock, pred int, s *pstate, start int) {
 			e.callEvent(s, "defer", in, &in.Call, nil, b.Index)
 		case *ssa.Send:
 			ch := e.val(s, in.Chan)
-			s.events = append(s.events, Event{Kind: "send", Instr: in, Pos: in.Pos(), Args: []*T{ch}, Val: e.val(s, in.X), Block: b.Index, Epoch: s.seq})
+			s.events = append(s.events, Event{Kind: "send", Instr: in, Pos: in.Pos(), Args: []*T{ch}, Val: e.val(s, in.X), Block: b.Index, Epoch: s.seq, Ver: s.verAll})
 		case *ssa.MapUpdate:
 			s.events = append(s.events, Event{Kind: "mapupdate", Instr: in, Pos: in.Pos(), LV: e.val(s, in.Map), Args: []*T{e.val(s, in.Key)}, Val: e.val(s, in.Value), Block: b.Index})
 			s.ver["[]"]++
@@ -779,6 +783,7 @@ func (e *Explorer) branch(b *ssa.BasicBlock, in *ssa.If, s *pstate, start int) {
 		ns := s
 		// clone lazily only when both feasible: simple approach clones always
 		ns = s.clone()
+		ns.curBlk = b.Index
 		if !e.assume(ns, c, pol, instrPos(in)) {
 			continue
 		}
@@ -820,7 +825,7 @@ func (e *Explorer) assume(s *pstate, c *T, pol bool, pos token.Pos) bool {
 			}
 			s.sets[k] = nw
 			s.setT[k] = x
-			s.conds = append(s.conds, Cond{Atom: c, Val: pol, Pos: pos})
+			s.conds = append(s.conds, Cond{Atom: c, Val: pol, Pos: pos, Block: s.curBlk})
 			return true
 		}
 	}
@@ -832,7 +837,7 @@ func (e *Explorer) assume(s *pstate, c *T, pol bool, pos token.Pos) bool {
 		return true
 	}
 	s.atoms[k] = pol
-	s.conds = append(s.conds, Cond{Atom: c, Val: pol, Pos: pos})
+	s.conds = append(s.conds, Cond{Atom: c, Val: pol, Pos: pos, Block: s.curBlk})
 	return true
 }
 
@@ -862,7 +867,7 @@ func (e *Explorer) call(s *pstate, in ssa.Instruction, c *ssa.CallCommon, v ssa.
 func (e *Explorer) callEvent(s *pstate, kind string, in ssa.Instruction, c *ssa.CallCommon, v ssa.Value, blk int) {
 	var args []*T
 	s.seq++
-	ev := Event{Kind: kind, Instr: in, Pos: in.Pos(), Block: blk, Epoch: s.seq}
+	ev := Event{Kind: kind, Instr: in, Pos: in.Pos(), Block: blk, Epoch: s.seq, Ver: s.verAll}
 	if c.IsInvoke() {
 		args = append(args, e.val(s, c.Value))
 		ev.Method = c.Method.Name()
